@@ -17,6 +17,7 @@
 
 import asyncio
 import importlib.util
+import json
 import logging
 import os
 import re
@@ -450,6 +451,22 @@ class LLMRails:
                 kwargs = esp_config.parameters
                 return self.embedding_search_providers[esp_config.name](**kwargs)
 
+    @staticmethod
+    def _get_events_cache_key(messages: List[dict]) -> str:
+        """The key used for the events history cache.
+
+        The history cache key joins the contents of the messages and is therefore the
+        same for different conversations (e.g. ["a:b"] vs ["a", "b"], or the same text
+        from the user in one conversation and from the assistant in another). We add
+        the exact roles and contents to make sure the events of one conversation are
+        never used for another one.
+        """
+        exact_messages = json.dumps(
+            [[msg["role"], msg.get("content"), msg.get("event")] for msg in messages],
+            default=str,
+        )
+        return get_history_cache_key(messages) + "\n" + exact_messages
+
     def _get_events_for_messages(self, messages: List[dict], state: Any):
         """Return the list of events corresponding to the provided messages.
 
@@ -475,7 +492,7 @@ class LLMRails:
             # of events.
             p = len(messages) - 1
             while p > 0:
-                cache_key = get_history_cache_key(messages[0:p])
+                cache_key = self._get_events_cache_key(messages[0:p])
                 if cache_key in self.events_history_cache:
                     events = self.events_history_cache[cache_key].copy()
                     break
@@ -772,7 +789,7 @@ class LLMRails:
             # If a state object is not used, then we use the implicit caching
             if state is None:
                 # Save the new events in the history and update the cache
-                cache_key = get_history_cache_key(messages + [new_message])
+                cache_key = self._get_events_cache_key(messages + [new_message])
                 self.events_history_cache[cache_key] = events
             else:
                 output_state = {"events": events}
